@@ -63,7 +63,7 @@ func TestC05(t *testing.T) {
 	}
 	var ilMu sync.Mutex
 	il := map[uint64]struct{}{}
-	focus := []string{"asFile.afterSetBlockedOn", "asFile.afterCompileDep", "asFile.afterRelease", "asFile.depsResolved", "link.start", "link.afterLink", "link.afterOptions", "symbols.importPackage.beforeUpgrade", ""}
+	focus := []string{"asFile.afterSetBlockedOn", "asFile.afterCompileDep", "asFile.afterRelease", "asFile.depsResolved", "link.start", "link.afterLink", "link.afterOptions", "symbols.importPackage.beforeUpgrade", "symbols.import.afterImportedCheck", "symbols.importFile.afterCommit", ""}
 	n := r.N(60, 1200)
 	V := r.N(10, 40)
 	r.Par(n, func(i int) {
@@ -97,10 +97,45 @@ func TestC05(t *testing.T) {
 			}
 		}
 		sort.Strings(names)
+		shape := "plain"
+		switch i % 6 {
+		case 1, 3:
+			// several files import the same well-known files, which arrive as built descriptors with imports of their own
+			shape = "shared-descriptor-imports"
+			k := rng.Range(1, 3)
+			wk := append([]string(nil), gen.WellKnownImports...)
+			vlib.Shuffle(rng, wk)
+			for _, nme := range names {
+				if nme != "opts/options.proto" {
+					src[nme] = gen.InjectImports(src[nme], wk[:k])
+				}
+			}
+		}
 		prefix := fmt.Sprintf("k%d/", caseCtr.Add(1))
 		psrc, pnames := prefixSources(prefix, src, names)
+		if i%6 == 4 {
+			// the resolver overrides descriptor.proto with source: every file then depends on it implicitly
+			shape = "descriptor.proto-overridden"
+			ds, err := gen.DescriptorProtoSource()
+			if err != nil {
+				r.Inconclusive("descriptor.proto source: " + err.Error())
+				return
+			}
+			psrc["google/protobuf/descriptor.proto"] = ds
+		}
+		r.Class("shape:" + shape)
 		p.SetSeed(r.Seed+uint64(i), "")
-		base := gen.Compile(psrc, pnames, gen.Opts{Par: 1})
+		bres := runCompile(func() *gen.Outcome { return gen.Compile(psrc, pnames, gen.Opts{Par: 1}) })
+		if !bres.returned {
+			if bres.stuck {
+				r.Eval(gen.SrcKey(src) + "|1|sorted")
+				r.Violation("c05.deadlock", shape+" set: Compile with MaxParallelism 1 never returns", id, map[string]any{"sources": psrc, "requested": pnames, "parallelism": 1, "goroutines": bres.dump})
+			} else {
+				r.Inconclusive("sequential compile did not return and is not quiescent: " + id)
+			}
+			return
+		}
+		base := bres.out
 		baseBytes := resultBytes(base)
 		cls := "valid"
 		if !base.OK() {
@@ -159,7 +194,18 @@ func TestC05(t *testing.T) {
 				if len(req) != len(pnames) {
 					sub := append([]string(nil), req...)
 					sort.Strings(sub)
-					ref = gen.Compile(psrc, sub, gen.Opts{Par: 1})
+					rres := runCompile(func() *gen.Outcome { return gen.Compile(psrc, sub, gen.Opts{Par: 1}) })
+					if !rres.returned {
+						if rres.stuck {
+							w["goroutines"] = rres.dump
+							w["requested"] = sub
+							r.Violation("c05.deadlock", cls+" set: Compile with MaxParallelism 1 never returns", vid, w)
+						} else {
+							r.Inconclusive("sequential compile did not return and is not quiescent: " + vid)
+						}
+						continue
+					}
+					ref = rres.out
 					refBytes = resultBytes(ref)
 				}
 				if out.OK() != ref.OK() {
